@@ -222,7 +222,7 @@ func init() {
 		},
 		V + "SameArray": func(th *Thread, _ *frame, _ token.Pos, _ *ssa.Function, a []Value) Value {
 			x, y := a[0].(SliceV), a[1].(SliceV)
-			return th.R.TB.Bool(x.Arr != nil && x.Arr == y.Arr && x.Cap > 0 && y.Cap > 0 && x.Off < y.Off+y.Cap && y.Off < x.Off+x.Cap)
+			return th.R.TB.Bool(x.sameBacking(y) && x.Cap > 0 && y.Cap > 0 && x.Off < y.Off+y.Cap && y.Off < x.Off+x.Cap)
 		},
 		V + "MapOrderMode": func(th *Thread, _ *frame, _ token.Pos, _ *ssa.Function, a []Value) Value {
 			th.R.mapOrderMode = th.R.concreteInt(a[0], "map order mode")
@@ -421,8 +421,8 @@ func init() {
 					if !th.R.Branch(lt) {
 						break
 					}
-					pa := Ptr{Obj: sl.Arr, Path: []int{sl.Off + j}}
-					pb := Ptr{Obj: sl.Arr, Path: []int{sl.Off + j - 1}}
+					pa := sl.elemPtr(j)
+					pb := sl.elemPtr(j - 1)
 					va, vb := th.load(pa, pos), th.load(pb, pos)
 					th.store(pa, vb, pos)
 					th.store(pb, va, pos)
